@@ -387,7 +387,8 @@ package mqtt
 // check allows it; with no such hook the answer is no.
 // verif:func mqtt.Hooks.OnConnectAuthenticate
 //@ requires !authAllowed
-//@ modifies authAllowed
+//@ modifies authAllowed, cl.authok
+//@ axiom cl.authok == r0
 //@ ensures C13-admitted-only-if-a-hook-allowed: r0 <==> authAllowed
 //@ ensures C13-refused-means-no-providing-hook-allows: !r0 ==> (forall j int :: 0 <= j && j < len(hooksOf(h)) ==> !(hookProvides(hooksOf(h)[j], OnConnectAuthenticate) && hookAuth(hooksOf(h)[j], cl, pk)))
 //@ ensures C13-no-hook-no-admission: len(hooksOf(h)) == 0 ==> !r0
@@ -544,6 +545,7 @@ package mqtt
 //@ ensures C14-clean-start-leaves-no-index-entry: old(has(s.Clients.internal, cl.ID)) && !r0 && !old(s.Clients.internal[cl.ID].State.isTakenOver.abool) ==> (forall f string :: !subsview[cl.ID][f])
 //@ ensures C09-resume-keeps-unacknowledged-messages: r0 && old(len(s.Clients.internal[cl.ID].State.Inflight.internal)) > 0 ==> (forall k uint16 :: (has(ifl(cl), k) <==> old(has(s.Clients.internal[cl.ID].State.Inflight.internal, k))) && ifl(cl)[k] == old(s.Clients.internal[cl.ID].State.Inflight.internal[k]))
 //@ ensures C11-send-quota-from-the-new-connection: r0 && old(len(s.Clients.internal[cl.ID].State.Inflight.internal)) > 0 && cl.ops.options.Capabilities.ReceiveMaximum != 0 ==> cl.State.Inflight.maximumSendQuota == int32(cl.Properties.Props.ReceiveMaximum) && cl.State.Inflight.maximumReceiveQuota == int32(cl.ops.options.Capabilities.ReceiveMaximum)
+//@ ensures C13-nothing-is-written-to-the-new-connection: cl.nsent == old(cl.nsent) && cl.connacked == old(cl.connacked) && cl.registered == old(cl.registered) && cl.authok == old(cl.authok) && nwillsent == old(nwillsent)
 //@ ensures C14-no-session-no-effect: !old(has(s.Clients.internal, cl.ID)) ==> !r0 && cl.State.Inflight == old(cl.State.Inflight)
 
 // ======================================================================================
@@ -722,7 +724,7 @@ package mqtt
 // verif:ext sync.WaitGroup.Wait pure
 
 // verif:func mqtt.Clients.Add trusted
-//@ requires C13-registered-only-after-its-connack: val.nsent > 0
+//@ requires C13-registered-only-after-its-connack-attempt: val.connacked
 //@ modifies val.registered, entries(cl.internal)
 //@ ensures val.registered
 // verif:func mqtt.Clients.Delete trusted
@@ -730,6 +732,8 @@ package mqtt
 
 // verif:func mqtt.Server.SendConnack modifies=all
 //@ requires validCl(cl) && validSrv(s) && (reason.Code < 128 ==> reason.Code == 0)
+//@ axiom cl.connacked
+//@ ensures new-connection-state-kept: cl.registered == old(cl.registered) && cl.authok == old(cl.authok) && nwillsent == old(nwillsent)
 //@ ensures C13-exactly-one-connack-or-error: r0 == nil ==> sentOne(cl) && lastSent(cl).FixedHeader.Type == Connack
 //@ ensures C13-nothing-else-written: cl.nsent <= old(cl.nsent) + 1
 //@ ensures C14-session-present-bit: r0 == nil && reason.Code < 128 ==> lastSent(cl).SessionPresent == present && lastSent(cl).ReasonCode == reason.Code
@@ -1123,3 +1127,39 @@ package mqtt
 //@ requires s.Options != nil && s.hooks != nil && s.Topics != nil && s.Topics.root != nil && s.inlineClient != nil
 //@ ensures C40-invalid-filter-removes-nothing: (!s.Options.InlineClient || !validSub(filter)) ==> r0 != nil && ninlineunsub == old(ninlineunsub)
 //@ callsite mqtt.TopicsIndex.InlineUnsubscribe C40-only-this-identifier-on-this-filter-is-removed: arg1 == subscriptionId && arg2 == filter
+
+// ======================================================================================
+// One connection from CONNECT to its end (C13, C15, C16): the order of events inside attachClient
+// ======================================================================================
+// ghost, per client object: an attempt to write its CONNACK has been made; an authentication hook admitted it
+// verif:ghost field connacked ref bool
+// verif:ghost field authok ref bool
+// what attachClient calls besides the functions that are under contract themselves (trusted; none of them writes to the
+// connection or registers the client)
+// verif:func mqtt.Server.readConnectionPacket trusted modifies=all
+//@ ensures cl.nsent == old(cl.nsent) && cl.connacked == old(cl.connacked) && cl.registered == old(cl.registered) && cl.authok == old(cl.authok) && nwillsent == old(nwillsent)
+// verif:func mqtt.Client.ParseConnect trusted modifies=all
+//@ ensures cl.nsent == old(cl.nsent) && cl.connacked == old(cl.connacked) && cl.registered == old(cl.registered) && cl.authok == old(cl.authok) && nwillsent == old(nwillsent)
+// verif:func mqtt.Server.validateConnect trusted pure
+// verif:func mqtt.Hooks.OnConnect trusted pure
+// verif:func mqtt.Hooks.OnSessionEstablish trusted pure
+// verif:func mqtt.Hooks.OnSessionEstablished trusted pure
+// verif:func mqtt.Hooks.OnDisconnect trusted pure
+// verif:func mqtt.Client.IsTakenOver trusted pure
+//@ ensures r0 == cl.State.isTakenOver.abool
+// the will message of a connection: every call of sendLWT is counted (ghost)
+// verif:func mqtt.Server.sendLWT trusted modifies=all
+//@ ensures nwillsent == old(nwillsent) + 1
+// verif:func mqtt.Server.attachClient modifies=all
+//@ requires cl != nil && s != nil && cl.nsent == 0 && !cl.connacked && !cl.registered && !cl.authok
+// C13: the client is entered into the registry (where publishers find it) only once its CONNACK has been attempted, only if an
+// authentication hook admitted it, and nothing but that CONNACK has been written to it before
+//@ callsite mqtt.Clients.Add C13-nothing-but-the-connack-precedes-registration: arg1 == cl && cl.nsent <= 1 && (cl.nsent == 1 ==> cl.sentpk[0].FixedHeader.Type == Connack)
+//@ callsite mqtt.Clients.Add C13-only-an-admitted-client-is-registered: cl.authok
+// C13 / C09: unacknowledged messages are resent only after the CONNACK went out, and only when a session is present
+//@ callsite mqtt.Client.ResendInflightMessages C09-resend-follows-a-successful-connack: arg0 == cl && cl.connacked && cl.nsent == 1 && sessionPresent
+// C16: the will is handed to sendLWT exactly when reading from the connection ended with an error (no normal DISCONNECT)
+//@ callsite mqtt.Server.sendLWT C16-will-only-after-an-abnormal-end: arg1 == cl && err != nil && nwillsent == old(nwillsent)
+// C15: a session that ends with the connection (expiry 0, or MQTT 3 clean session) is removed from the registry together with its
+// subscriptions and in-flight messages, unless another connection has taken it over
+//@ callsite mqtt.Clients.Delete C15-only-an-ended-session-is-discarded-at-disconnect: arg1 == cl.ID && expire && !cl.State.isTakenOver.abool && len(cl.State.Inflight.internal) == 0 && len(cl.State.Subscriptions.internal) == 0
